@@ -84,6 +84,12 @@ CLAIMED = {
         "Documented places are restated in the harness (line start of field 72, whole {108:} value); other spellings are only used for agreement checks.",
         "DESIGN.md section 3, C17",
     ),
+    "C04": (
+        "runtime monitor: per-type reference rule predicates over an abstract message (presence flags, codes, currencies, sums, counts) vs validate_network_rules on messages rendered by JSON surgery; exhaustive product where small, pairwise sweeps + seeded random points otherwise",
+        "Exploration: for 21 rule-bearing types the abstract rule-relevant space (presence/absence of every field a rule mentions per sequence, every code of the tables incl. all ordered pairs, equal/different currencies, matching/non-matching sums incl. one-cent differences, counts around each limit) is enumerated exhaustively where the product is small (all but MT103/104/107) and by all 1- and 2-dimensional sweeps plus seeded random points otherwise; the set of reported error codes must equal the set the reference predicates predict, code by code; the 9 types without rules must report nothing on corpus messages and JSON-surgery variants.",
+        "Trusted base: props/c04.rs rule predicates restated from the rule texts; code sets are compared, not multiplicities; codes outside the model are not judged.",
+        "DESIGN.md section 3, C04",
+    ),
     "C05": (
         "runtime monitor: SWIFT-format-notation reference acceptor (three-valued) vs the 114 field parsers on class-labelled candidates derived from each documented format, plus field-level conservation",
         "Exploration: for each of the 89 concrete field types and the 25 option families, every component at lengths 0, min-1, min, max, max+1, max+2, thirteen character classes at first / middle / last position, separators missing or doubled, embedded newlines, line counts 0, max+1, max+2, empty lines, trailing characters, case, plus seeded random edits and strings: accepted iff the reference acceptor says the content conforms (contents the documentation does not settle are not judged), and every accepted content must come back from serialisation.",
